@@ -76,9 +76,6 @@ Qed.
 
 (** ** [add] *)
 
-Definition vals_at (d : db) (p : pat) : list route :=
-  match get d p with Some n => vals n | None => [] end.
-
 Ltac split4 := split; [|split; [|split]].
 
 Lemma add_spec d : forall p v bt, sorted d ->
